@@ -13,6 +13,7 @@ package main
 // canonical re-encoding jcanon(raw).
 
 import (
+	"encoding/json"
 	"fmt"
 	"go/token"
 	"go/types"
@@ -94,6 +95,12 @@ func (e *Exec) marshalXattrMap(m *MapV) *BytesV {
 		e.assume(xisObj(r))
 		e.assume(tNe(r, nullBlob))
 		e.assume(tIntCmp(">=", tStrLen(r), mkInt(2)))
+		// size of the marshaled object: at most 2 + sum over members of (value length + name and punctuation)
+		ub := mkInt(2)
+		for i := range U {
+			ub = tIntBin("+", ub, tIte(hs[i], tIntBin("+", tStrLen(gs[i]), mkInt(110)), mkInt(0)))
+		}
+		e.assume(tIntCmp("<=", tStrLen(r), ub))
 	}
 	return bytesOf(r)
 }
@@ -128,6 +135,17 @@ func (e *Exec) unmarshalXattrMap(x *BytesV, dst *PtrV) Val {
 	return nilIface
 }
 
+// constJSONText: the concrete JSON text of a blob that is the image of a constant string.
+func constJSONText(t *Term) (string, bool) {
+	if t.Op == "bOfS" && t.Args[0].IsConst() {
+		return t.Args[0].Str, true
+	}
+	if t.IsConst() && t.S == SStr {
+		return t.Str, true
+	}
+	return "", false
+}
+
 func (e *Exec) jval(canon *Term) Val {
 	return &IfaceV{T: jvalType, V: &NativeV{Kind: "jval", Data: canon}}
 }
@@ -154,6 +172,23 @@ func init() {
 				return ret(e.unmarshalObject(data, dst))
 			}
 		case *types.Interface:
+			if txt, ok := constJSONText(data.S); ok {
+				// concrete JSON literal: decided natively
+				var v interface{}
+				if err := json.Unmarshal([]byte(txt), &v); err != nil {
+					return ret(e.newError("json", "invalid JSON"))
+				}
+				if v == nil {
+					dst.store(nilIface)
+					return ret(nilIface)
+				}
+				cb, _ := json.Marshal(v)
+				cn := toBlob(mkStr(string(cb)))
+				e.assume(jsonValid(cn))
+				e.assume(tEq(jcanon(cn), cn))
+				dst.store(e.jval(cn))
+				return ret(nilIface)
+			}
 			if e.branch(tEq(data.S, mkStr(""))) {
 				return ret(e.newError("json", "unexpected end of JSON input"))
 			}
@@ -259,6 +294,7 @@ func init() {
 			vals = append(vals, u)
 		}
 		for i := 0; i < n; i++ {
+			e.assume(tIntCmp("<", tStrLen(U[i]), mkInt(100))) // bound: xattr names shorter than 100 bytes
 			for j := i + 1; j < n; j++ {
 				e.assume(tNe(U[i], U[j]))
 			}
